@@ -49,4 +49,12 @@ theorem C04_makeStr_inputs :
     EnumFacts.recvSelectors.contains ("MakeData", "makeStr", "()") = true := by
   decide
 
+/-- addPackage turns EVERY syntax file of the package into a scanned file: its body has no branch at all
+    (no `if`, `switch`, `continue`, `goto`), so no file can be left out — neither by name (`-file`), nor
+    by a generated-code header, nor by anything else -/
+theorem C04_every_file_scanned :
+    (EnumFacts.controlCounts.filter (·.1 = "addPackage")).all (·.2.2 = 0) = true ∧
+    (EnumFacts.controlCounts.filter (·.1 = "addPackage")).length = 4 := by
+  decide
+
 end ShootVerif.Enum
